@@ -24,6 +24,10 @@ CHECKS = {
    text='Machine-checked (axiom-free): after any merge sequence the model of CongClosure reports two constants equal only if the inductive congruence closure of the merged equations relates them (no_sound); the naive reference closure identifies exactly the related constants (sound and complete); explanations accepted by explain_check use only merged equations and prove their pairs. The model replays prover/congc.py exactly (all test answers and explain paths on ~1300 sequences/prefixes per run); the implementation answers are compared with the naive closure in both directions, explanations are checked, merge order is permuted, the HOL wrapper is validated through the naive closure over the subterm universe and theory.check_proof.',
    note='Trusted: Coq kernel; model tie = exact differential replay; completeness of the NO structure is validated per instance, not proved; ematch not covered.',
    design='7/C17'),
+ 'C18': dict(category='proof', technique='Coq proof of soundness of 13 modelled veriT rule evaluations + verified truth-table oracle applied to every accepted step of 38 propositional rules (correct and near-miss instances) + acceptance correspondence',
+   text='Machine-checked (axiom-free): accept_sound (each of 13 modelled rule evaluations only yields consequences of its premises), entails_tt_spec (truth-table entailment is exactly semantic entailment). Every step that macro.eval accepts, for 38 propositional rules on correct and single-field near-miss instances, is translated to propositional form over opaque atoms and decided by entails_tt; hypotheses of the conclusion must come from the premises; for the modelled rules the model decision and conclusion are compared with macro.eval. Partial: equality/congruence, la_generic, simplification and quantifier rules are not covered.',
+   note='Trusted: Coq kernel; translation of HOL terms to propositional skeletons in the harness; generator coverage of near misses.',
+   design='7/C18'),
 }
 m = {
  'version': 1,
